@@ -5,7 +5,8 @@ EXTENDS Library, Json
 CONSTANTS Family, MaxCrates, MaxTracks, MaxOps, WithTracks,
           OpNames,      \* names used as arguments (subset of Names)
           CrateOpSet,   \* "all" | "basic" (create_root, create_sub, remove_crate only)
-          Pre           \* "none" | "diverge": start after a preamble that makes crate, track and
+          TrackOpSet,   \* "all" | "mem" (add_track / remove_track_from / clear_tracks only)
+          Pre           \* "none" | "diverge" | "rich": start after a preamble that makes crate, track and
                         \* membership-row ids diverge (what a fresh-database test never has)
 
 VARIABLE hist      \* the calls made so far (ghost; hidden by the VIEW)
@@ -19,8 +20,21 @@ Preamble == << H("create_root", 0, "c", 0, 1), H("create_root", 0, "d", 0, 2), H
                H("create_track", 0, "", 0, 4), H("remove_track", 0, "", 1, 0), H("remove_track", 0, "", 2, 0),
                H("remove_track", 0, "", 3, 0) >>
 
+\* "rich": two crates and three tracks are alive, so that membership orderings can be explored deeply
+Preamble2 == Preamble \o << H("create_track", 0, "", 0, 5), H("create_track", 0, "", 0, 6), H("create_root", 0, "c", 0, 3) >>
+
 MCInit ==
     IF Pre = "none" THEN InitWith(Family) /\ hist = <<>>
+    ELSE IF Pre = "rich" THEN
+         /\ fam = Family
+         /\ live = {2, 3} /\ dead = {1}
+         /\ par = (2 :> Root) @@ (3 :> Root) /\ nm = (2 :> "d") @@ (3 :> "c")
+         /\ kids = (Root :> <<2, 3>>) @@ (2 :> <<>>) @@ (3 :> <<>>)
+         /\ tlive = {4, 5, 6} /\ tdead = {1, 2, 3}
+         /\ mem = (2 :> <<>>) @@ (3 :> <<>>)
+         /\ last = Preamble2[Len(Preamble2)]
+         /\ kf = ""
+         /\ hist = Preamble2
     ELSE /\ fam = Family
          /\ live = {2} /\ dead = {1}
          /\ par = (2 :> Root) /\ nm = (2 :> "d")
@@ -42,20 +56,24 @@ CrateOps ==
           \/ \E c \in live, p \in live \cup {Root} : SetParent(c, p)
 
 TrackOps ==
-    \/ NextTid <= MaxTracks /\ CreateTrack(NextTid)
-    \/ \E t \in tlive : RemoveTrack(t)
+    \/ TrackOpSet = "all" /\ NextTid <= MaxTracks /\ CreateTrack(NextTid)
+    \/ TrackOpSet = "all" /\ \E t \in tlive : RemoveTrack(t)
     \/ \E c \in live, t \in tlive : AddTrack(c, t)
     \/ \E c \in live, t \in tlive : RemoveTrackFrom(c, t)
     \/ \E c \in live : ClearTracks(c)
 
 MCNext ==
     /\ Len(hist) < MaxOps
-    /\ (CrateOps \/ (WithTracks /\ TrackOps))
+    /\ ((CrateOpSet # "none" /\ CrateOps) \/ (WithTracks /\ TrackOps))
     /\ hist' = Append(hist, last')
 
 MCSpec == MCInit /\ [][MCNext]_<<vars, hist>>
 
 MCView == state
+
+\* Simulation mode (random long histories): every candidate successor that completes a history of
+\* MaxOps calls is printed; each printed history is a behaviour of the specification.
+SimEmit == Len(hist) < MaxOps \/ PrintT("HIST " \o ToJson(hist))
 
 \* Every generated transition is printed with the complete call sequence that reaches it.
 Emit == PrintT("SCRIPT " \o ToJson([h |-> hist', loop |-> (state' = state)]))
